@@ -238,7 +238,9 @@ func (s *ServerSession) doMsg(stream *Stream) error {
 		fallthrough
 	case base.RtmpTypeIdVideo:
 		if s.sessionStat.BaseType() != base.SessionBaseTypePubStr {
+			// 不是推流session时，avObserver为nil，不能继续往下回调
 			err = nazaerrors.Wrap(base.ErrRtmpUnexpectedMsg)
+			break
 		}
 		s.avObserver.OnReadRtmpAvMsg(stream.toAvMsg())
 	default:
